@@ -30,6 +30,7 @@ def T():
             x: torch.Tensor
             n: TensorDict
             y: torch.Tensor = None
+            label: str = "text"
 
         C05TC.__module__ = __name__
         globals()["C05TC"] = C05TC
@@ -140,6 +141,13 @@ def fx_td_lazy():
             [], {"locked_by": "lock_", "members": ["L", "L.m0", "n.L2.m1.n"]})
 
 
+def fx_td_empty_lazy():
+    t = T()
+    L = t["Lazy"](stack_dim=0)
+    td = t["TD"]({"a": _leaf(()), "L": L}, batch_size=[]).lock_()
+    return ({"root": td}, {"root": td, "L": L}, [], {"locked_by": "lock_", "members": ["L"], "hollow": ["L"]})
+
+
 def fx_lazy_lazy():
     t = T()
     inner0 = t["lazy_stack"]([_nested(), _nested()], 0)
@@ -169,7 +177,7 @@ def fx_params(lock_content=False):
     t = T()
     p = t["Params"](_nested(), lock=lock_content)
     p.lock_()
-    return ({"root": p}, {"root": p, "n": p["n"]}, [], {"locked_by": "params.lock_", "members": ["n"]})
+    return ({"root": p}, {"root": p, "n": p["n"]}, [], {"locked_by": "params(lock=True).lock_" if lock_content else "params.lock_", "members": ["n"]})
 
 
 def fx_td_params():
@@ -200,7 +208,7 @@ def fx_unlocked_parent():
     inner = _nested().lock_()
     outer = t["TD"]({"inner": inner, "o": _leaf((3,))}, batch_size=[3])
     return ({"root": inner}, {"outer": outer, "inner": inner, "inner.n": inner["n"]}, [],
-            {"locked_by": "lock_", "members": ["inner.n"], "outside": ["outer"]})
+            {"locked_by": "lock_", "members": ["inner.n"], "outside": ["outer"], "unlock_roots": ["outer", "inner"]})
 
 
 FIXTURES = {
@@ -219,6 +227,7 @@ FIXTURES = {
     "lazy_pickle": lambda: fx_lazy(False, "pickle"),
     "td_lazy": fx_td_lazy,
     "lazy_lazy": fx_lazy_lazy,
+    "td_empty_lazy": fx_td_empty_lazy,
     "tc": fx_tc,
     "td_tc": fx_td_tc,
     "params": lambda: fx_params(False),
@@ -230,7 +239,7 @@ FIXTURES = {
 }
 QUICK_FIXTURES = ["nested", "nested_memmap", "nested_shared", "nested_pickle", "nested_nt", "lazy", "lazy_hetero",
                   "lazy_members_first", "td_lazy", "tc", "td_tc", "params", "td_params", "sub", "shared_node",
-                  "unlocked_parent", "nested_ctor", "lazy_lazy"]
+                  "unlocked_parent", "nested_ctor", "lazy_lazy", "td_empty_lazy", "params_lockcontent"]
 
 
 # ------------------------------------------------------------------------------------------------ snapshot
@@ -376,8 +385,40 @@ EXCLUDED = {
 STORAGE_CONVERSION = {"memmap_", "share_memory_", "make_memmap", "make_memmap_from_storage", "make_memmap_from_tensor"}
 # in-place loaders of the memory-mapped family: they replace the content by what is on disk (entries may come and go with the
 # directory); the lock state they leave behind is still judged
-LOADERS = {"load_", "load_memmap_", "memmap_refresh_", "load_state_dict"}
+LOADERS = {"load_", "load_memmap_", "memmap_refresh_"}
 UNLOCKERS = {"unlock_", "unlock"}
+
+
+def pattern_of(obs, label):
+    """the minimal input pattern of the recorded defects (findings.d/C05.json): a decidable predicate of the observation.
+    Anything that does not fit one of these shapes has pattern None and is reported as a new violation."""
+    m, meta, kw = obs["method"], obs["meta"], obs.get("kwargs") or {}
+    inplace = isinstance(kw, dict) and kw.get("inplace") is True
+    lb, hk, ok = meta["locked_by"], obs.get("handle_kind"), obs["outcome"] == "ok"
+    args = obs.get("args") or []
+    if label == "locked_frozen:structure":
+        if m == "exclude" and inplace and ok:
+            return "exclude-inplace-on-locked"
+        if m == "expand" and inplace and ok and hk == "lazy":
+            return "lazy-expand-inplace-on-locked"
+        if m == "to_empty" and ok and hk == "params":
+            return "params-module-_apply-on-locked"
+        if m == "__setitem__" and ok and hk == "lazy" and args and \
+                (isinstance(args[0], list) or (isinstance(args[0], str) and args[0].startswith("tensor(")) or args[0] == "range"):
+            return "lazy-setitem-sequence-index-on-locked"
+    if label == "member_cannot_unlock:unlocked" and m in UNLOCKERS and ok:
+        if lb == "memmap_":
+            return "member-unlock:parent-locked-by-memmap_"
+        if lb == "lazy.members_first":
+            return "member-unlock:lazy-stack-locked-after-members"
+        if obs["handle"] in meta.get("hollow", []):
+            return "member-unlock:hollow-lazy-stack"
+    if label in ("locked_frozen:unlocked-by-call", "member_cannot_unlock:flags-not-restored") and not ok:
+        if m in LOADERS:
+            return "memmap-loader-raises-leaves-unlocked"
+        if m == "update" and lb == "params(lock=True).lock_" and inplace:
+            return "params-lock-content-update-raises-leaves-content-unlocked"
+    return None
 
 
 def public_methods(cls):
@@ -603,7 +644,11 @@ SPECIAL = {
                     lambda c: ((slice(None), c.twin(extra=True)), {}), lambda c: ((c.leaf[0], c.ones((7,))), {}),
                     lambda c: ((c.node[0] if c.node else c.absent, {"u": c.ones(c.bs)}), {}),
                     lambda c: ((0, {c.absent: c.ones(c.bs[1:])}), {}),
-                    lambda c: ((c.leaf[0], "text"), {})],
+                    lambda c: ((c.leaf[0], "text"), {}),
+                    lambda c: ((c.torch.arange(c.bs[0]) if c.bs else 0, c.twin()), {}),
+                    lambda c: ((list(range(c.bs[0])) if c.bs else 0, c.twin()), {}),
+                    lambda c: ((c.torch.ones(c.bs[:1], dtype=c.torch.bool) if c.bs else 0, c.twin()), {}),
+                    lambda c: ((range(c.bs[0]) if c.bs else 0, c.twin(extra=True)), {})],
     "__delitem__": [lambda c: ((c.leaf[0],), {}), lambda c: ((c.nested[0] if c.nested else c.absent,), {}), lambda c: ((c.absent,), {}),
                     lambda c: ((c.node[0] if c.node else c.leaf[0],), {})],
     "__setattr__": [lambda c: ((c.leaf[0], c.ones(c.shape_of(c.leaf[0]))), {}), lambda c: ((c.absent, c.ones(c.bs)), {}),
@@ -802,12 +847,15 @@ def run_call(fixture, handle, method, variant, seed, keep=False):
         obs["outcome"] = outcome
         sdiff = diff_struct(before.structure(), after.structure())
         kdiff = diff_struct(before.keyset(), after.keyset())
-        ldiff = sorted(fmt_path(p) for p, v in after.locks().items() if v is not True and before.locks().get(p) is True)
+        bs_, as_ = before.structure(), after.structure()
+        ldiff = sorted(fmt_path(p) for p, v in after.locks().items()
+                       if v is not True and before.locks().get(p) is True and bs_.get(p) == as_.get(p))   # same object, no longer locked
         pb, pa = before.ptrs(), after.ptrs()
         pdiff = sorted(fmt_path(p) for p in pb if p in pa and pa[p] != pb[p] and p not in
                        {q for q in before.structure() if before.structure()[q] != after.structure().get(q)})
         obs.update(status="called", struct_diff=sdiff, key_diff=kdiff, unlocked=ldiff, ptr_diff=pdiff,
-                   meta=meta, is_root_handle=(handle in roots), nodes=len(before.locks()))
+                   meta=meta, is_root_handle=(handle in roots) or handle in meta.get("unlock_roots", []), nodes=len(before.locks()),
+                   handle_kind=kind_of(h))
         if keep:
             obs["_objects"] = (roots, handles, before, after)
         return obs
@@ -826,6 +874,11 @@ def judge(obs):
     and no member gets unlocked; except unlock_ issued on a root, and the documented storage conversions."""
     if obs.get("status") != "called":
         return []
+    out = _judge(obs)
+    return [(label, detail, dict(sig, pattern=pattern_of(obs, label))) for (label, detail, sig) in out]
+
+
+def _judge(obs):
     m, meta = obs["method"], obs["meta"]
     out = []
     sig_base = {"call": m, "fixture_kind": meta["locked_by"]}
